@@ -108,7 +108,7 @@ theorem last_of_last_mem {α : Type} {parts : List (List α)} {l : α}
 theorem chooseRep_oneHit_inv {parts : List (List Entry)} {d nb : Nat}
     (h : chooseRep parts = some (.oneHit d nb)) :
     ∃ e, parts.flatMap id = [e] ∧ e.locs = [] ∧ e.doc < 2 ^ 31 ∧ e.freq = 1 ∧
-      d = e.doc ∧ nb = e.norm % 2 ^ 31 := by
+      d = e.doc ∧ nb = e.norm ∧ nb ≠ 0 ∧ nb < 2 ^ 31 := by
   simp only [chooseRep] at h
   generalize hes : parts.flatMap id = es at h
   match es, hes with
@@ -130,11 +130,13 @@ theorem chooseRep_oneHit_inv {parts : List (List Entry)} {d nb : Nat}
       subst hle
       split at h
       · rename_i hc
-        obtain ⟨h1, h2, _, h4⟩ := hc
+        obtain ⟨h1, h2, _, h4, h5, h6⟩ := hc
         have h2' := (under32Bits_iff _).1 h2
+        have h6' := (under32Bits_iff _).1 h6
         rw [decode_encode_1hit] at h
         simp only [Option.some.injEq, PostRep.oneHit.injEq] at h
-        refine ⟨l, rfl, by simpa using h1, h2', h4, ?_, h.2.symm⟩
+        have hnb : nb = l.norm := by rw [← h.2, Nat.mod_eq_of_lt h6']
+        refine ⟨l, rfl, by simpa using h1, h2', h4, ?_, hnb, by rw [hnb]; exact h5, by rw [hnb]; exact h6'⟩
         rw [← h.1, Nat.mod_eq_of_lt h2']
       · simp at h
 
